@@ -319,6 +319,7 @@ package kcache
   modifies sent(s.outch) full(s.outch)
   requires (and (not (= {s} vnil)) (not (= {s.outch} vnil)) (not (= {s.log} vnil)) (not {closed(s.outch)}))
   loop 1 inv [range] (and (<= 0 (+ {rangeindex} 1)) (<= (+ {rangeindex} 1) (slen {events})) (not {closed(s.outch)}))
+  at go() assert [opt:handlers-run-serially-on-the-actor-goroutine] false
 @*/
 
 /*@ neverclosed kcache.filterSubscription.refilterch
@@ -399,6 +400,7 @@ package kcache
   loop 1 inv [I5b-untouched-until-pending-or-ready] (=> (and (not {pending}) (not {ready})) (and (not cacheTouched) (= {s.filter} (old {s.filter}))))
   loop 1 inv [I6-pending-implies-filter-supplied] (=> {pending} filterSupplied)
   loop 1 inv [I7-lifecycle-running] (and (= lc 0) (not {closed(s.outch)}))
+  at go() assert [opt:handlers-run-serially-on-the-actor-goroutine] false
 @*/
 
 /*@ nonnil-global kcache.errInvalidType kcache.ErrNotRunning
@@ -467,6 +469,7 @@ package kcache
         (forall ((j Int)) (=> (and (<= 0 j) (< j (slen handed))) (= (select (sarr handed) j) (select (sarr {events}) j)))))
   exit [every-event-handed-over-exactly-once-in-order] (and (= (slen handed) (slen {events}))
         (forall ((j Int)) (=> (and (<= 0 j) (< j (slen handed))) (= (select (sarr handed) j) (select (sarr {events}) j)))))
+  at go() assert [opt:handlers-run-serially-on-the-actor-goroutine] false
 @*/
 
 /*@ func (*kcache.controller).run
@@ -533,6 +536,7 @@ package kcache
   loop 1 inv [reset-only-after-ready] (=> resetCalled {initialized})
   loop 1 inv [running] (and (= lc 0) (= njoin 0))
   loop 1 inv [list-failures-are-fatal] (not failure)
+  at go() assert [opt:handlers-run-serially-on-the-actor-goroutine] false
 @*/
 
 /*@ neverclosed kcache._subscription.inch
@@ -565,6 +569,7 @@ package kcache
   loop 1 inv [last-embedding-is-below-received] (=> (> nsent 0) (< (select emb (- nsent 1)) nrcv))
   loop 1 inv [nothing-dropped-means-identical] (=> (= ndrop 0) (forall ((j Int)) (=> (and (<= 0 j) (< j nsent)) (= (select emb j) j))))
   loop 1 inv [running] (and (= lc 0) (not {closed(s.outch)}))
+  at go() assert [opt:handlers-run-serially-on-the-actor-goroutine] false
 @*/
 
 /*@ func (*kcache._subscription).send
@@ -583,6 +588,7 @@ package kcache
   loop 1 inv [visited-are-subscriptions] (forall ((x V)) (=> (select $visited x) (select {dom(s.subscriptions)} x)))
   loop 1 inv [each-visited-subscription-got-it-once] (forall ((x V)) (= (select cnt x) (ite (select $visited x) 1 0)))
   exit [every-subscription-gets-the-event-exactly-once] (forall ((x V)) (= (select cnt x) (ite (select {dom(s.subscriptions)} x) 1 0)))
+  at go() assert [opt:handlers-run-serially-on-the-actor-goroutine] false
 @*/
 
 /*@ iface kcache.Handler.OnInitialize
@@ -632,6 +638,7 @@ package kcache
   at call(ShutdownCompleted) assert [no-callback-if-never-ready] (=> (= ninit 0) (= ncb 0))
   loop 1 inv [initialized-once] (and (= ninit 1) (>= ncb 1) (= lc 0))
   loop 1 inv [every-received-event-was-dispatched] (not evPending)
+  at go() assert [opt:handlers-run-serially-on-the-actor-goroutine] false
 @*/
 
 /*@ neverclosed kcache._cache.syncch kcache._cache.updatech kcache._cache.refilterch kcache._cache.listch kcache._cache.getch
@@ -703,6 +710,7 @@ package kcache
   at call(ShutdownCompleted) assert [after-shutdown-initiated] (= lc 1)
   loop 1 inv [representation] (and (WFitems {dom(c.items)} {val(c.items)}) (not (= {c.filter} vnil)) (not (= {c.items} vnil)))
   loop 1 inv [every-request-answered-exactly-once] (and (= nreply nreq) (= lc 0))
+  at go() assert [opt:handlers-run-serially-on-the-actor-goroutine] false
 @*/
 
 /*@ owner (*kcache._cache).run kcache._cache.items kcache._cache.filter
@@ -843,14 +851,19 @@ package kcache
   ghost ndrop : Int := 0
   at recv(ResultChan) set lastType := (|watch.Event.Type| $val)
   at call(Accessor).after set lastObj := $result0
-  at call(NewEvent) set nobj := (+ nobj 1)
+  ghost pending : Bool := false
+  at call(Accessor).after set pending := (and (= $result1 vnil) (or (= lastType |str!ADDED|) (= lastType |str!MODIFIED|) (= lastType |str!DELETED|)))
+  at call(Accessor).after set nobj := (+ nobj (ite (and (= $result1 vnil) (or (= lastType |str!ADDED|) (= lastType |str!MODIFIED|) (= lastType |str!DELETED|))) 1 0))
   at send(s.outch) assert [event-is-the-translation-of-the-frame-just-received] (and (= (evt-type $val) (xlate lastType)) (= (evt-res $val) lastObj) (not (= lastObj vnil)))
   at send(s.outch) set nsent := (+ nsent 1)
+  at send(s.outch) set pending := false
   at default set ndrop := (+ ndrop 1)
+  at default set pending := false
   at call(ShutdownInitiated) assert [shutdown-initiated-once] (= lc 0)
   at call(ShutdownInitiated) set lc := 1
   at call(ShutdownCompleted) assert [after-shutdown-initiated] (= lc 1)
-  loop 1 inv [every-object-frame-is-forwarded-or-dropped-on-overflow] (and (= nobj (+ nsent ndrop)) (>= nsent 0) (>= ndrop 0) (= lc 0))
+  loop 1 inv [every-object-frame-is-forwarded-or-dropped-on-overflow] (and (= nobj (+ nsent ndrop)) (>= nsent 0) (>= ndrop 0) (= lc 0) (not pending))
+  at go() assert [opt:handlers-run-serially-on-the-actor-goroutine] false
 @*/
 
 /*@ iface kcache.watchSession.events
@@ -916,6 +929,7 @@ package kcache
   loop 1 inv [running] (and (= lc 0) (not (= {session} vnil)) (not (= {ctx} vnil)))
   loop 1 inv [retry-channel-is-private] (and (not (= {retrych} vnil)) (not (= {retrych} {w.resetch})))
   loop 1 inv [has-closed-nothing] (forall ((x V)) (not (select $closed x)))
+  at go() assert [opt:handlers-run-serially-on-the-actor-goroutine] false
 @*/
 
 /*@ immutable kcache._subscription.readych kcache._subscription.outch kcache._subscription.inch kcache._subscription.cache kcache._subscription.lc
@@ -1165,6 +1179,7 @@ package kcache
   at call(ShutdownCompleted) assert [all-subscriptions-gone-and-parent-done-before-completing] (and (= lc 1) parentDone)
   loop 1 inv [running] (and (= lc 0) (not (select {dom(s.subscriptions)} vnil)))
   loop 2 inv [draining] (= lc 1)
+  at go() assert [opt:handlers-run-serially-on-the-actor-goroutine] false
 @*/
 
 /*@ func (*kcache.publisher).Subscribe
